@@ -3,6 +3,8 @@
    and compares within the rounding tolerance relative to the magnitude of the summed terms (exact for the
    discrete data: counts, min, max, the untouched and the missing values).
    Prints `MISMATCH <what> <line id> ...` and a final `MODEL-DONE checked=<n> mismatches=<m>`.
+   Extension (second stage, see "the binary64 twin" below): bit-for-bit comparison with the PrimFloat twin
+   (`MISMATCH twin-...`) and the PROVED floating-point bounds on the implementation's values (`PROPFAIL fl-...`).
    NB: compiled by tools/checks/c14.py after `open C14_model` (no zutil.ml.inc: Z is not an inductive here). *)
 module B = Big_int_Z
 
@@ -200,6 +202,235 @@ let check_aff id fm tm fs_s ts_s w_s b_s w2_s b2_s =
     go 0 ts w b w2 b2
   end
 
+
+(* ==== extension: the binary64 twin (C14_FloatDefs.v, extracted into the same module) ============================= *)
+(* every statistic / scaled / up-scaled value / up-scaled weight is recomputed with the PrimFloat twin and compared BIT FOR
+   BIT (`MISMATCH twin-...`); the bounds PROVED in C14_Float.v are checked on the implementation's own values in exact
+   rational arithmetic, independently of the model, whenever their hypotheses hold (`PROPFAIL fl-...`). *)
+let epsf = ref 0.0
+let bigf = ref 0.0
+let twin_values = ref 0      (* values compared bit for bit *)
+let bound_values = ref 0     (* values on which the proved round-trip bound was applicable and checked *)
+let minmax_values = ref 0    (* values on which the proved min-max range theorem was applicable and checked *)
+let chain_overflow = ref 0   (* values with an overflow in the chain (hypothesis of the theorem fails): not checked *)
+let bias_bound = ref 0       (* biases checked against the proved g (C + 4) bound *)
+let pred_bound = ref 0      (* probe predictions checked against the proved bound of C14_fl_prediction *)
+let finite_cols = ref 0     (* columns on which the proved finiteness of the statistics was applicable and checked *)
+let bias_fallback = ref 0    (* biases where a no-underflow hypothesis is not decidable / fails: empirical tolerance *)
+let pf = ref 0
+let pfprinted = ref 0
+let propfail clause id detail =
+  incr pf; incr pfprinted;
+  if !pfprinted <= 200 then Printf.printf "PROPFAIL %s %s %s\n" clause id detail
+
+(* Coq's primitive floats are extracted to Float64.t of coq-core.kernel (= OCaml's native binary64 floats) *)
+let ff = Float64.of_float
+let tf = Float64.to_float
+(* same bits (any NaN equals any NaN; +0 and -0 differ) *)
+let same (a : float) (b : float) = Int64.bits_of_float a = Int64.bits_of_float b || (a <> a && b <> b)
+let fstats_of (st : istats) : fstats =
+  { f_n = B.big_int_of_int st.n; f_min = ff st.f.(0); f_max = ff st.f.(1); f_mean = ff st.f.(2); f_stdev = ff st.f.(3);
+    f_div_range = ff st.f.(4); f_mul_range = ff st.f.(5); f_div_stdev = ff st.f.(6); f_mul_stdev = ff st.f.(7) }
+let fstats_str (s : fstats) =
+  Printf.sprintf "%s;%h;%h;%h;%h;%h;%h;%h;%h" (B.string_of_big_int s.f_n) (tf s.f_min) (tf s.f_max) (tf s.f_mean) (tf s.f_stdev)
+    (tf s.f_div_range) (tf s.f_mul_range) (tf s.f_div_stdev) (tf s.f_mul_stdev)
+
+let pow2 k = if k >= 0 then { qnum = B.shift_left_big_int B.unit_big_int k; qden = B.unit_big_int }
+  else { qnum = B.unit_big_int; qden = B.shift_left_big_int B.unit_big_int (- k) }
+let q1 = q_of_int 1
+let eta2 = pow2 (-1074)                                   (* 2 eta *)
+let u_1p3u = u53 */ (q1 +/ (q_of_int 3 */ u53))           (* u (1 + 3u) *)
+let two1022 = pow2 1022
+let tiny1022 = pow2 (-1022)
+(* the bound of C14_fl_roundtrip *)
+let rt_bound x off mul = (((q_of_int 5 */ qabs x) +/ (q_of_int 4 */ qabs off)) */ u_1p3u) +/ (eta2 */ (mul +/ q1))
+(* g n = (1 + u)^n - 1, exactly *)
+let g_cache = Hashtbl.create 16
+let gq n =
+  match Hashtbl.find_opt g_cache n with
+  | Some v -> v
+  | None ->
+    let rec pw k = if k = 0 then q1 else qred (pw (k - 1) */ (q1 +/ u53)) in
+    let v = pw n -/ q1 in Hashtbl.add g_cache n v; v
+let nu t = qeq_bool t qz || qle tiny1022 (qabs t)
+
+(* COL: the twin of update() + done() on the whole column *)
+let check_col_twin id en ci csize lhs rhs =
+  let ist = parse_stats rhs in
+  let col = floats_of lhs in
+  let tw = fcol_stats (ff !epsf) (ff !bigf) (B.big_int_of_int ci) (B.big_int_of_int csize) (B.big_int_of_int en) (List.map ff col) in
+  let im = fstats_of ist in
+  incr total;
+  let names = [| "min"; "max"; "mean"; "stdev"; "div_range"; "mul_range"; "div_stdev"; "mul_stdev" |] in
+  let tv = Array.map tf [| tw.f_min; tw.f_max; tw.f_mean; tw.f_stdev; tw.f_div_range; tw.f_mul_range; tw.f_div_stdev; tw.f_mul_stdev |] in
+  if B.int_of_big_int tw.f_n <> ist.n then
+    report "twin-stats-n" id (Printf.sprintf "twin=%s impl: %s column=%s" (fstats_str tw) rhs lhs)
+  else
+    Array.iteri (fun k nm ->
+        incr twin_values;
+        if not (same tv.(k) ist.f.(k)) then
+          report ("twin-stats-" ^ nm) id (Printf.sprintf "twin=%h impl=%h (twin record %s) impl: %s column=%s" tv.(k) ist.f.(k) (fstats_str tw) rhs lhs))
+      names;
+  ignore im;
+  (* C14_fl_stats_finite on the implementation's record: no NaN / negative deviation / non-positive (de)normaliser when
+     the sums do not overflow (hypotheses evaluated on the twin's accumulators) *)
+  let acc = faccumulate (facc0 (ff !bigf)) (List.map ff col) in
+  let n = B.int_of_big_int acc.fa_n in
+  let amin = tf acc.fa_min and amax = tf acc.fa_max in
+  if en <> 0 && ci < csize && n >= 2 && var_finite acc && Float.is_finite amin && Float.is_finite amax
+     && Float.is_finite (amax -. amin) && Float.is_finite !epsf && !epsf >= 0x1p-1022 then begin
+    incr finite_cols;
+    (* C14_fl_minmax_structure on the implementation's record (native binary64 operations on its own fields) *)
+    let fmaxc a b = if a < b then b else a in
+    if stats_finite ist && not (same ist.f.(5) (fmaxc (ist.f.(1) -. ist.f.(0)) !epsf) && same ist.f.(4) (1.0 /. ist.f.(5))
+                                && same ist.f.(7) (fmaxc ist.f.(3) !epsf) && same ist.f.(6) (1.0 /. ist.f.(7))) then
+      propfail "fl-structure" id (Printf.sprintf "the record is not mul = max(spread, eps), div = 1.0 / mul in binary64: %s column=%s" rhs lhs);
+    if not (stats_finite ist && ist.f.(3) >= 0.0 && ist.f.(4) > 0.0 && ist.f.(5) > 0.0 && ist.f.(6) > 0.0 && ist.f.(7) > 0.0) then
+      propfail "fl-stats-finite" id (Printf.sprintf "a statistic is not finite / stdev < 0 / a (de)normaliser <= 0 although the sums do not overflow: %s column=%s" rhs lhs)
+  end
+
+(* SC / FSC: the twin of scale / upscale on every listed value + the proved bounds on the implementation's values *)
+let check_sc_twin id m stats_s xs ss us =
+  let ist = parse_stats stats_s in
+  let st = fstats_of ist in
+  incr total;
+  let off = tf (f_off m st) and dv = tf (f_div m st) and mul = tf (f_mul m st) in
+  let denorm = same dv (1.0 /. mul) in
+  let mul_ok = Float.is_finite mul && mul > 0.0 && mul <= 0x1p1022 in
+  (* C14_fl_denormalisers on the implementation's record: the divisor is 1.0 / multiplier, bit for bit *)
+  if Float.is_finite mul && Float.is_finite dv && not denorm then
+    propfail "fl-denorm" id (Printf.sprintf "the record violates div = 1.0 / mul (binary64): div=%h mul=%h 1.0/mul=%h stats=%s" dv mul (1.0 /. mul) stats_s);
+  (* hypotheses of C14_fl_minmax that do not depend on x *)
+  let smin = ist.f.(0) and smax = ist.f.(1) and sdivr = ist.f.(4) and smulr = ist.f.(5) in
+  let range = smax -. smin in
+  let mm_ok = (m = MMinMax) && !epsf > 0.0 && Float.is_finite smin && Float.is_finite smax && Float.is_finite range
+              && range <= 0x1p1022 && Float.is_finite sdivr
+              && same smulr (tf (fmax_cpp (ff range) (ff !epsf))) && same sdivr (1.0 /. smulr) in
+  let rec go xs ss us =
+    match xs, ss, us with
+    | x :: xs', s :: ss', up :: us' ->
+      let dsc () = Printf.sprintf "x=%h scaled=%h upscaled=%h stats=%s" x s up stats_s in
+      (* bit for bit *)
+      twin_values := !twin_values + 2;
+      let ts = tf (fscale_one m st (ff x)) in
+      if not (same ts s) then report "twin-scale" id (Printf.sprintf "twin=%h %s" ts (dsc ()));
+      let tu = tf (fupscale_one m st (ff s)) in
+      if not (same tu up) then report "twin-upscale" id (Printf.sprintf "twin=%h %s" tu (dsc ()));
+      (* C14_fl_roundtrip_any_stats on the implementation's values *)
+      if Float.is_finite x then begin
+        if denorm && mul_ok && chain_finite m st (ff x) then begin
+          incr bound_values;
+          let xq = q_of_float x in
+          if Float.is_finite up then begin
+            if not (qle (qabs (q_of_float up -/ xq)) (rt_bound xq (q_of_float off) (q_of_float mul))) then
+              propfail "fl-roundtrip" id ("|upscale(scale(x)) - x| exceeds the proved bound (5|x|+4|off|)u(1+3u)+2^-1074(mul+1): " ^ dsc ())
+          end else propfail "fl-roundtrip" id ("up-scaled value not finite although no intermediate overflows: " ^ dsc ())
+        end else incr chain_overflow;
+        (* C14_fl_minmax on the implementation's values *)
+        if mm_ok && smin <= x && x <= smax then begin
+          incr minmax_values;
+          if not (Float.is_finite s && 0.0 <= s && s <= 1.0) then
+            propfail "fl-minmax" id ("min-max scaled value of a value in [min, max] outside [0, 1]: " ^ dsc ())
+          else if x = smin && s <> 0.0 then propfail "fl-minmax" id ("the minimum is not scaled to 0: " ^ dsc ())
+          else if x = smax && !epsf <= range && s < 1.0 -. 0x1p-53 then
+            propfail "fl-minmax" id ("the maximum is scaled below 1 - u: " ^ dsc ())
+        end
+      end;
+      go xs' ss' us'
+    | [], [], [] -> ()
+    | _ -> report "twin-scale" id "length mismatch" in
+  go xs ss us
+
+let floats_of_bits s =
+  List.map (fun t -> Int64.float_of_bits (Int64.of_string ("0x" ^ String.trim t))) (split ',' (String.trim s))
+
+(* AFF: the element-wise part of nano::upscale bit for bit; the bias against the PROVED bound g (C + 4) M / |tw| *)
+let check_aff_twin id fm tm fs_s ts_s w_s b_s w2_s b2_s =
+  let fis = List.map parse_stats (split '/' fs_s) and tis = List.map parse_stats (split '/' ts_s) in
+  if List.for_all stats_finite fis && List.for_all stats_finite tis then begin
+    incr total;
+    let ffs = List.map fstats_of fis and fts = List.map fstats_of tis in
+    let qfs = List.map model_stats fis and qts = List.map model_stats tis in
+    let rows s = List.map floats_of (split '/' s) in
+    let w = rows w_s and w2 = rows w2_s in
+    let b = floats_of b_s and b2 = floats_of b2_s in
+    let c = List.length ffs in
+    let fbx = List.map (scaling_b fm) qfs in                  (* exact - offset * div *)
+    let fbf = List.map (fun f -> tf (fmk_b fm f)) ffs in                       (* rnd of it: the twin of make_scaling *)
+    let rec go i fts qts w b w2 b2 =
+      match fts, qts, w, b, w2, b2 with
+      | ft :: fts', qt :: qts', wr :: w', bi :: b', wr2 :: w2', bi2 :: b2' ->
+        if List.for_all Float.is_finite wr2 && Float.is_finite bi2 then begin
+          let twf = tf (fmk_w tm ft) in
+          (* weights: bit for bit *)
+          List.iteri (fun j (wv, iv) ->
+              incr twin_values;
+              let f = List.nth ffs j in
+              let tv = tf (fup_w fm tm f ft (ff wv)) in
+              let fwf = tf (fmk_w fm f) in
+              if not (same tv iv) then
+                report "twin-affine-w" id (Printf.sprintf "output=%d column=%d w=%h tw=%h fw=%h w'=%h twin=%h" i j wv twf fwf iv tv);
+              (* C14_fl_up_weight: relative error g 2 when nothing underflows *)
+              let q1w = q_of_float wv // q_of_float twf in
+              let r1 = wv /. twf in
+              let fwq = q_of_float fwf in
+              if Float.is_finite r1 && nu q1w && nu (q_of_float r1 */ fwq) then begin
+                let ex = q1w */ fwq in
+                if not (close (q_of_float iv) ex (gq 2 */ qabs ex)) then
+                  propfail "fl-up-weight" id (Printf.sprintf "output=%d column=%d W' off (W/tw)*fw by more than g(2)=2u+u^2 relative: w=%h tw=%h fw=%h w'=%h" i j wv twf fwf iv)
+              end)
+            (List.combine wr wr2);
+          (* bias: hypotheses of C14_fl_up_bias *)
+          let wq = List.map q_of_float wr in
+          let bq = q_of_float bi in
+          let tbx = scaling_b tm qt and twq = scaling_w tm qt in
+          let hyp = c >= 1 && List.length wr = c
+                    && List.for_all2 (fun fx ff -> nu fx && Float.is_finite ff) fbx fbf
+                    && List.for_all2 (fun wv ff -> nu (wv */ q_of_float ff)) wq fbf
+                    && nu tbx && not (qeq_bool twq qz) && Float.abs bi2 > 0x1p-1022 in
+          if hyp then begin
+            incr bias_bound;
+            let mb = up_bias fm tm qfs qt wq bq in
+            let magn = List.fold_left2 (fun s wv fbv -> s +/ qabs (wv */ fbv)) (qabs bq +/ qabs tbx) wq fbx in
+            let tol = gq (c + 4) */ magn // qabs twq in
+            if not (close (q_of_float bi2) mb tol) then
+              propfail "fl-up-bias" id (Printf.sprintf "output=%d C=%d b=%h b'=%h exact=%h proved tolerance g(C+4)*M/|tw|=%h" i c bi bi2 (float_of_q mb) (float_of_q tol))
+          end else incr bias_fallback;
+          (* C14_fl_prediction: the converted model (W', b' of the implementation) on three probe inputs per output -- the
+             column minima, maxima and mean + deviation -- against the exact up-scaled original model, exact arithmetic *)
+          let dvs = List.map (scaling_w fm) qfs and offs = List.map (off_of fm) qfs in
+          let wnu = List.for_all2 (fun wv dvq ->
+              let r1 = wv /. twf in
+              Float.is_finite r1 && nu (q_of_float wv // twq) && nu (q_of_float r1 */ dvq)) wr dvs in
+          if hyp && wnu then begin
+            let toff = off_of tm qt in
+            let magn = List.fold_left2 (fun s wv fbv -> s +/ qabs (wv */ fbv)) (qabs bq +/ qabs tbx) wq fbx in
+            let w2q = List.map q_of_float wr2 in
+            List.iter (fun pick ->
+                incr pred_bound;
+                let xs = List.map pick qfs in
+                let lhs = List.fold_left2 (fun s w2 x -> s +/ (w2 */ x)) (q_of_float bi2) w2q xs in
+                let rec sum3 f a b c = match a, b, c with
+                  | x :: a', y :: b', z :: c' -> f x y z +/ sum3 f a' b' c'
+                  | _ -> qz in
+                let inner = List.fold_left2 (fun s (wv, x) (o, d) -> s +/ (wv */ ((x -/ o) */ d))) bq
+                    (List.combine wq xs) (List.combine offs dvs) in
+                let rhs = toff +/ (inner // twq) in
+                let wsum = sum3 (fun wv d x -> qabs (wv // twq */ d */ x)) wq dvs xs in
+                let bnd = (gq 2 */ wsum) +/ (gq (c + 4) */ magn // qabs twq) in
+                if not (close lhs rhs bnd) then
+                  propfail "fl-prediction" id (Printf.sprintf "output=%d C=%d W'x+b'=%h exact upscale(W scale(x)+b)=%h proved bound=%h x=%s w'=%s b'=%h"
+                                                 i c (float_of_q lhs) (float_of_q rhs) (float_of_q bnd)
+                                                 (String.concat "," (List.map (fun x -> Printf.sprintf "%h" (float_of_q x)) xs))
+                                                 (String.concat "," (List.map (Printf.sprintf "%h") wr2)) bi2))
+              [(fun st -> st.s_min); (fun st -> st.s_max); (fun st -> st.s_mean +/ st.s_mul_stdev)]
+          end
+        end;
+        go (i + 1) fts' qts' w' b' w2' b2'
+      | _ -> () in
+    go 0 fts qts w b w2 b2
+  end
+
 let () =
   (try
     while true do
@@ -213,7 +444,8 @@ let () =
           (match op with
            | "CONST" ->
              (match split ' ' rest with
-              | [e; b] -> eps := q_of_float (parse_float e); big := q_of_float (parse_float b)
+              | [e; b] -> eps := q_of_float (parse_float e); big := q_of_float (parse_float b);
+                epsf := parse_float e; bigf := parse_float b
               | _ -> ())
            | "COL" ->
              (match split_str " = " rest with
@@ -223,7 +455,8 @@ let () =
                    (match split ' ' (String.trim hd) with
                     | [id; en; ci; cs] ->
                       let v s = int_of_string (List.nth (split '=' s) 1) in
-                      check_col id (v en) (v ci) (v cs) vals rhs
+                      check_col id (v en) (v ci) (v cs) vals rhs;
+                      check_col_twin id (v en) (v ci) (v cs) vals rhs
                     | _ -> ())
                  | _ -> ())
               | _ -> ())
@@ -233,7 +466,22 @@ let () =
                 (match split_str " | " l with
                  | [hd; st; vals] ->
                    (match split ' ' (String.trim hd) with
-                    | [id; m] -> check_sc (id ^ " " ^ m) (mode_of_string m) st vals rhs
+                    | [id; m] ->
+                      check_sc (id ^ " " ^ m) (mode_of_string m) st vals rhs;
+                      (match split_str " ; " rhs with
+                       | [ss; us] -> check_sc_twin (id ^ " " ^ m) (mode_of_string m) st (floats_of vals) (floats_of ss) (floats_of us)
+                       | _ -> ())
+                    | _ -> ())
+                 | _ -> ())
+              | _ -> ())
+           | "FSC" ->
+             (* all values of a long column (bit patterns): twin + proved bounds only *)
+             (match split_str " = " rest with
+              | [l; rhs] ->
+                (match split_str " | " l, split_str " ; " rhs with
+                 | [hd; st; vals], [ss; us] ->
+                   (match split ' ' (String.trim hd) with
+                    | [id; m] -> check_sc_twin (id ^ " " ^ m) (mode_of_string m) st (floats_of_bits vals) (floats_of_bits ss) (floats_of_bits us)
                     | _ -> ())
                  | _ -> ())
               | _ -> ())
@@ -243,7 +491,9 @@ let () =
                 (match split_str " | " l, split_str " | " rhs with
                  | [hd; fs; ts; w; b], [w2; b2] ->
                    (match split ' ' (String.trim hd) with
-                    | [id; fm; tm] -> check_aff (id ^ " " ^ fm ^ " " ^ tm) (mode_of_string fm) (mode_of_string tm) fs ts w b w2 b2
+                    | [id; fm; tm] ->
+                      check_aff (id ^ " " ^ fm ^ " " ^ tm) (mode_of_string fm) (mode_of_string tm) fs ts w b w2 b2;
+                      check_aff_twin (id ^ " " ^ fm ^ " " ^ tm) (mode_of_string fm) (mode_of_string tm) fs ts w b w2 b2
                     | _ -> ())
                  | _ -> ())
               | _ -> ())
@@ -251,4 +501,5 @@ let () =
         with Failure msg | Invalid_argument msg -> report "driver" op ("cannot process line: " ^ msg))
     done
   with End_of_file -> ());
-  Printf.printf "MODEL-DONE checked=%d mismatches=%d\n" !total !mism
+  Printf.printf "MODEL-DONE checked=%d mismatches=%d propfails=%d twin_values=%d bound_values=%d minmax_values=%d chain_overflow=%d bias_bound=%d bias_fallback=%d finite_cols=%d pred_bound=%d\n"
+    !total !mism !pf !twin_values !bound_values !minmax_values !chain_overflow !bias_bound !bias_fallback !finite_cols !pred_bound
